@@ -642,7 +642,60 @@ func c04R4(p *Prog, r *Report) {
 		a := &arm{storeNew: st}
 		arms = append(arms, a)
 	}
-	r.Check(len(arms) == 2, "C04.R4", "both arms of the mixer carry the previous sample in the state field", p.Pos(fn.Pos()), "two stores to lastFb", fmt.Sprintf("%d stores to the carried-sample field (want one per arm)", len(arms)))
+	// every loop that writes output samples carries the previous sample through the state field
+	// (the fast path and the mixing path may be two loops or one loop with a flag)
+	uncarried := ""
+	nOutLoops := 0
+	Instrs(fn, func(in ssa.Instruction) {
+		st, ok := in.(*ssa.Store)
+		if !ok || !InLoop(st) {
+			return
+		}
+		if _, isIA := st.Addr.(*ssa.IndexAddr); !isIA {
+			return
+		}
+		nOutLoops++
+		has := false
+		for _, a := range arms {
+			if sameTightLoop(st.Block(), a.storeNew.Block()) || sameTightLoop(a.storeNew.Block(), st.Block()) || InLoopWith(a.storeNew, st) {
+				has = true
+			}
+		}
+		if !has {
+			uncarried = p.InstrPos(st)
+		}
+	})
+	r.Check(len(arms) >= 1 && nOutLoops >= 1 && uncarried == "", "C04.R4", "both arms of the mixer carry the previous sample in the state field", p.Pos(fn.Pos()), fmt.Sprintf("%d store(s) to lastFb, one in every loop that writes output samples", len(arms)), fmt.Sprintf("%d stores to the carried-sample field; the loop that writes output at %s does not refresh it (want one per arm)", len(arms), uncarried))
+	// the error is mixed in unless the scale is exactly zero: the scale is tested for (in)equality
+	// with zero only (a negative mix fraction is accepted when it is configured)
+	Instrs(fn, func(in ssa.Instruction) {
+		bo, ok := in.(*ssa.BinOp)
+		if !ok {
+			return
+		}
+		var other ssa.Value
+		if _, f, _, okf := FieldOf(bo.X); okf && f == "errorScale" {
+			other = bo.Y
+		} else if _, f, _, okf := FieldOf(bo.Y); okf && f == "errorScale" {
+			other = bo.X
+		}
+		if other == nil {
+			return
+		}
+		c, isC := other.(*ssa.Const)
+		if !isC || c.Value == nil {
+			return
+		}
+		if fv, _ := constant.Float64Val(constant.ToFloat(c.Value)); fv != 0 {
+			return
+		}
+		switch bo.Op {
+		case token.EQL, token.NEQ:
+			r.OK("C04.R4", "the mixing path is chosen by errorScale != 0", p.InstrPos(bo), "(in)equality with zero")
+		case token.GTR, token.LSS, token.GEQ, token.LEQ:
+			r.Bad("C04.R4", "the mixing path is chosen by errorScale != 0", p.InstrPos(bo), "the scale is compared with zero by `"+bo.Op.String()+"`: a mix fraction of one sign (accepted and reported back by the configuration request) takes the path without mixing, so the feedback of that channel is delivered delayed but without the scaled error added")
+		}
+	})
 	for i, a := range arms {
 		key := fmt.Sprintf("mixer arm %d", i+1)
 		// stored value = elem & mask(^3)
@@ -732,6 +785,58 @@ func c04R4(p *Prog, r *Report) {
 			}
 		}
 	})
+	if !hi || !lo {
+		// the clamp in a helper that returns the limits under the two tests (`saturate(x)`)
+		Instrs(fn, func(in ssa.Instruction) {
+			st, ok := in.(*ssa.Store)
+			if !ok {
+				return
+			}
+			if _, isIA := st.Addr.(*ssa.IndexAddr); !isIA {
+				return
+			}
+			seenH := map[ssa.Value]bool{}
+			var follow func(v ssa.Value, d int)
+			follow = func(v ssa.Value, d int) {
+				v = stripConv(v)
+				if v == nil || seenH[v] || d > 6 {
+					return
+				}
+				seenH[v] = true
+				switch x := v.(type) {
+				case *ssa.Phi:
+					for _, e := range x.Edges {
+						follow(e, d+1)
+					}
+				case *ssa.Call:
+					h := x.Call.StaticCallee()
+					if !isModuleFn(h) || x.Call.IsInvoke() {
+						return
+					}
+					Instrs(h, func(y ssa.Instruction) {
+						ret, ok := y.(*ssa.Return)
+						if !ok || len(ret.Results) != 1 {
+							return
+						}
+						k, isC := constInt(stripConv(ret.Results[0]))
+						if !isC {
+							return
+						}
+						for _, c := range controllingIfs(ret.Block()) {
+							d := c05Describe(c.If.Cond, nil, 0)
+							if k == 65535 && strings.Contains(d, ">=") && strings.Contains(d, "65535") && c.Branch == 0 {
+								hi = true
+							}
+							if k == 0 && strings.Contains(d, "<") && strings.Contains(d, "const 0") && c.Branch == 0 {
+								lo = true
+							}
+						}
+					})
+				}
+			}
+			follow(st.Val, 0)
+		})
+	}
 	if !hi || !lo {
 		// the same clamp written with math.Max / math.Min around the value that is rounded and stored
 		Instrs(fn, func(in ssa.Instruction) {
@@ -869,17 +974,30 @@ func c04R5(p *Prog, r *Report) {
 			}
 		}
 	})
-	Instrs(fn, func(in ssa.Instruction) {
+	relWhy := ""
+	// deferred: fields of the device that a release adds to the frames (a skip count kept for the
+	// next release), each with whether the releasing helper clears it afterwards on every path
+	deferredField := map[string]bool{}
+	InstrsDeep(fn, 1, func(dd DeepInstr) {
+		in := dd.In
 		cc := CallOf(in)
 		if cc == nil || !cc.IsInvoke() || cc.Method.Name() != "ReleaseBytes" || framesUsed == nil {
 			return
 		}
 		d := pc.Of(cc.Args[0])
+		if len(dd.Path) == 1 {
+			// inside a helper: its polynomial in the caller's terms
+			h := in.Parent()
+			hc := NewPolyCtx(h)
+			tr, _ := callTranslator(h, dd.Path[0], pc, hc)
+			d = tr(hc.Of(cc.Args[0]))
+		}
 		if !strings.Contains(d.String(), "frameSize") {
 			return // the re-alignment release
 		}
 		nRel++
 		okThis := false
+		extra := 0
 		for s, c := range d {
 			if c == 1 && strings.Contains(s, "frameSize") {
 				// monomial = framesUsed * frameSize
@@ -888,13 +1006,49 @@ func c04R5(p *Prog, r *Report) {
 						okThis = true
 					}
 				}
+				continue
 			}
+			// + a field of the device: a skip count deferred to this release
+			if c == 1 && !strings.Contains(s, "*") && strings.Contains(s, ".") {
+				f := s[strings.LastIndex(s, ".")+1:]
+				if i := strings.Index(f, "{"); i >= 0 {
+					f = f[:i]
+				}
+				h := in.Parent()
+				isClear := func(x ssa.Instruction) bool {
+					st, ok := x.(*ssa.Store)
+					if !ok {
+						return false
+					}
+					_, ff, _, okf := FieldOf(st.Addr)
+					k, isC := constInt(st.Val)
+					return okf && ff == f && isC && k == 0
+				}
+				cleared := len(ReachAvoiding(h, in, isClear, func(x ssa.Instruction) bool {
+					if isReturn(x) {
+						return true
+					}
+					c2 := CallOf(x)
+					return c2 != nil && c2.IsInvoke() && c2.Method.Name() == "AvailableBuffer"
+				})) == 0
+				deferredField[f] = cleared
+				if !cleared {
+					relWhy = "the release at " + p.InstrPos(in) + " adds the count kept in " + f + ", which is not set back to zero afterwards: the bytes skipped after one data drop are released again with every later read, the read position leaves the frame boundary, and every second read is taken for another drop"
+					okRel = false
+				}
+				extra++
+				continue
+			}
+			extra += 2
 		}
-		if !okThis || len(d) != 1 {
+		if !okThis || extra > 1 {
 			okRel = false
 		}
 	})
-	r.Check(nRel >= 1 && okRel, "C04.R5", "each card is told to release exactly frames-used x frame-size bytes", p.Pos(fn.Pos()), fmt.Sprintf("%d release calls", nRel), "the bytes released to the driver are not frames-used x frame-size: data is skipped or read twice")
+	if relWhy == "" {
+		relWhy = "the bytes released to the driver are not frames-used x frame-size: data is skipped or read twice"
+	}
+	r.Check(nRel >= 1 && okRel, "C04.R5", "each card is told to release exactly frames-used x frame-size bytes", p.Pos(fn.Pos()), fmt.Sprintf("%d release calls", nRel), relWhy)
 	// re-alignment after a data drop: when the read buffer is cut at a non-zero offset L (the
 	// bytes in front of the first whole frame), those L bytes are released to the driver on
 	// every path before the next read - otherwise the next read starts at the same mid-frame
@@ -914,9 +1068,49 @@ func c04R5(p *Prog, r *Report) {
 		if c, isC := L.IsConst(); isC && c == 0 {
 			return
 		}
+		// the skip may be kept in a field of the device and released with the frames by a helper
+		keptIn := map[string]bool{}
+		Instrs(fn, func(x ssa.Instruction) {
+			if st, ok := x.(*ssa.Store); ok {
+				if _, f, _, okf := FieldOf(st.Addr); okf && pc.Of(st.Val).Equal(L) {
+					if _, known := deferredField[f]; known {
+						keptIn[f] = true
+					}
+				}
+			}
+		})
 		releases := func(x ssa.Instruction) bool {
+			// noted in a field that the next release adds (and clears): it stays pending across reads
+			if st, ok := x.(*ssa.Store); ok {
+				if _, f, _, okf := FieldOf(st.Addr); okf && keptIn[f] && pc.Of(st.Val).Equal(L) {
+					return true
+				}
+			}
 			cc := CallOf(x)
-			if cc == nil || !cc.IsInvoke() || cc.Method.Name() != "ReleaseBytes" {
+			if cc == nil {
+				return false
+			}
+			if h := cc.StaticCallee(); isModuleFn(h) && !cc.IsInvoke() && len(keptIn) > 0 {
+				hit := false
+				Instrs(h, func(y ssa.Instruction) {
+					c2 := CallOf(y)
+					if c2 == nil || !c2.IsInvoke() || c2.Method.Name() != "ReleaseBytes" {
+						return
+					}
+					hc := NewPolyCtx(h)
+					for sym := range hc.Of(c2.Args[0]) {
+						for f := range keptIn {
+							if strings.HasSuffix(basePath(sym), "."+f) {
+								hit = true
+							}
+						}
+					}
+				})
+				if hit {
+					return true
+				}
+			}
+			if !cc.IsInvoke() || cc.Method.Name() != "ReleaseBytes" {
 				return false
 			}
 			A := pc.Of(cc.Args[0])
